@@ -205,6 +205,15 @@ def check_split(case):
               eao.assets.Transport(name='t', nodes=[n1, n2], min_cap=0., max_cap=2., efficiency=0.9)]
     if case['storage']:
         assets.append(eao.assets.Storage(name='s', nodes=n1, size=3., cap_in=1., cap_out=1., start_level=1., end_level=1.))
+    if case.get('orderbook'):
+        # one order per day (so every interval leaves some orders without any step: variables without mapping row), placed last / first
+        pts_ = list(tg.timepoints) + [tg.end]
+        days = max(1, int(np.ceil(case['hours'] / 24.)))
+        ob = pd.DataFrame({'start': [start + pd.Timedelta(24 * d, 'h') for d in range(days)],
+                           'end': [min(start + pd.Timedelta(24 * d + 6, 'h'), end) for d in range(days)],
+                           'capa': [1. + d for d in range(days)], 'price': [2. + 3 * d for d in range(days)]})
+        book = eao.assets.OrderBook(name='orders', nodes=n1, orders=ob)
+        assets = assets + [book] if case['orderbook'] == 'last' else [book] + assets
     pf = eao.portfolio.Portfolio(assets)
     prices = {'p': price}
     op, res = optimize(pf, prices, tg)
@@ -220,6 +229,25 @@ def check_split(case):
     if len(rs.x) != len(ops.c) or abs(rs.value + float(ops.c @ rs.x)) > 1e-5 * max(1, abs(rs.value)):
         out.append(fail('C14.value_is_sum_of_interval_optima', 'optimization:SplitOptimProblem.optimize', case, params, 'value != -c.x of concatenation'))
     o = eao.io.extract_output(pf2, ops, rs)
+    # C04 on the split problem: value = DCF total; each asset's DCF total = minus cost x value of its OWN variables (taken from the interval problems)
+    tot = float(o['DCF'].sum().sum())
+    if abs(tot - rs.value) > 1e-5 * max(1., abs(rs.value)):
+        out.append(fail('C04.split.value_equals_sum_of_dcf', 'portfolio:Portfolio.setup_split_optim_problem', case, params, f'value {rs.value} != DCF total {tot}'))
+    own = {a.name: 0. for a in assets}
+    off = 0
+    for sub in ops.ops:
+        xs = rs.x[off:off + len(sub.c)]
+        m = sub.mapping
+        for a in assets:
+            idx = sorted(set(int(i) for i in m.index[m['asset'] == a.name]))
+            own[a.name] += -float(np.sum(sub.c[idx] * xs[idx]))
+        off += len(sub.c)
+    for a in assets:
+        got = float(o['DCF'][a.name].sum())
+        if abs(got - own[a.name]) > 1e-5 * max(1., abs(own[a.name])):
+            out.append(fail('C04.split.asset_dcf_equals_cost_of_own_variables', 'portfolio:Portfolio.setup_split_optim_problem', case, params,
+                            f'asset {a.name}: DCF total {got} vs -c.x of its own variables {own[a.name]}'))
+            break
     d = o['dispatch']
     bal_b = d['load (b)'] + d['t (b)']
     if np.abs(bal_b.values).max() > 1e-5:
@@ -606,7 +634,12 @@ def check_take(case):
     take = {'start': [p[0] for p in periods], 'end': [p[1] for p in periods], 'values': [p[2] for p in periods]}
     kind = case['kind']
     kw = dict(min_take=take) if kind == 'min' else dict(max_take=take)
-    c = eao.assets.Contract(name='c', nodes=node, price='p', min_cap=-5., max_cap=5., extra_costs=case['ec'], start=pts[a0], **kw)
+    # the asset's own window: starts at step a0, or (explicitly) before the horizon; ends with the horizon, or explicitly after it / inside it
+    a_start = pts[a0] if case.get('asset_start_before', 0) == 0 else pts[0] - pd.Timedelta(case['asset_start_before'], 'h')
+    if case.get('asset_start_before', 0):
+        a0 = 0
+    a_end = None if not case.get('asset_end_after') else pts[T] + pd.Timedelta(case['asset_end_after'], 'h')
+    c = eao.assets.Contract(name='c', nodes=node, price='p', min_cap=-5., max_cap=5., extra_costs=case['ec'], start=a_start, end=a_end, **kw)
     op = c.setup_optim_problem({'p': np.ones(T)}, tg)
     n = T - a0
     nv = len(op.c)
@@ -1436,4 +1469,66 @@ def check_prices_to_grid(case):
         exp = np.interp(tt, tt[sel], [keep['p'][i] for i in sel])
         if not np.allclose(df3['p'].values.astype(float), exp, atol=1e-9):
             F('C19.prices.interpolated_in_time', f'got {df3["p"].values.tolist()} expected {exp.tolist()}')
+    return out
+
+
+# ------------------------------------------------------------------------------------------------ C09 renaming / permutation
+def check_permutation(case):
+    """C09: renaming assets and nodes (injectively; numeric names, names that are prefixes of each other) or permuting the
+    order of the assets changes neither the optimal value nor, up to the relabelling, the per-asset dispatch and cash flows."""
+    eao = eao_mod()
+    out = []
+    rng = random.Random(case['seed'])
+    T = case['T']
+    start = pd.Timestamp('2021-01-01')
+    prices = {'p': np.asarray([float(rng.randint(1, 9)) for _ in range(T)]), 'q': np.asarray([float(rng.randint(1, 9)) for _ in range(T)])}
+    kinds = rng.sample(['spread', 'transport', 'storage', 'coarse1', 'coarse2', 'load', 'orderbook'], rng.randint(3, 6)) + ['market']
+    waccs = {k: rng.choice([0., 0., .2, .6]) for k in kinds}
+    if 'coarse1' in kinds and 'coarse2' in kinds:
+        waccs['coarse1'], waccs['coarse2'] = .5, 0.
+    schemes = [lambda k: k, lambda k: str(kinds.index(k) + 1) * (1 + kinds.index(k) % 3), lambda k: 'a' + '_a' * kinds.index(k)]
+    node_schemes = [lambda n: n, lambda n: {'A': '1', 'B': '11'}[n], lambda n: {'A': 'x', 'B': 'x_x'}[n]]
+
+    def build(order, nm, nn):
+        tg = eao.assets.Timegrid(start, start + pd.Timedelta(T, 'h'), freq='h')
+        pts = list(tg.timepoints) + [tg.end]
+        A, B = eao.assets.Node(nn('A')), eao.assets.Node(nn('B'))
+        mk = {
+            'market': lambda: eao.assets.SimpleContract(name=nm('market'), nodes=A, price='p', min_cap=-4., max_cap=4., wacc=waccs['market']),
+            'spread': lambda: eao.assets.Contract(name=nm('spread'), nodes=B, price='q', extra_costs=.4, min_cap=-2., max_cap=3., wacc=waccs['spread']),
+            'transport': lambda: eao.assets.Transport(name=nm('transport'), nodes=[A, B], min_cap=0., max_cap=2., efficiency=.9, costs_const=.1, wacc=waccs['transport']),
+            'storage': lambda: eao.assets.Storage(name=nm('storage'), nodes=A, size=3., cap_in=1., cap_out=1.5, eff_in=.9, wacc=waccs['storage']),
+            # two assets with their OWN (coarser) frequency, the same window and different discount rates
+            'coarse1': lambda: eao.assets.SimpleContract(name=nm('coarse1'), nodes=A, price='q', min_cap=0., max_cap=1., freq='2h', wacc=waccs['coarse1']),
+            'coarse2': lambda: eao.assets.SimpleContract(name=nm('coarse2'), nodes=A, price='q', min_cap=-1., max_cap=0., extra_costs=.1, freq='2h', wacc=waccs['coarse2']),
+            'load': lambda: eao.assets.SimpleContract(name=nm('load'), nodes=B, min_cap=-.5, max_cap=-.5, start=pts[1], wacc=waccs['load']),
+            'orderbook': lambda: eao.assets.OrderBook(name=nm('orderbook'), nodes=A, wacc=waccs['orderbook'], orders=pd.DataFrame(
+                {'start': [pts[0], pts[1]], 'end': [pts[2], pts[T]], 'capa': [1., -2.], 'price': [3., 8.]})),
+        }
+        assets = [mk[k]() for k in order]
+        pf = eao.portfolio.Portfolio(assets)
+        op = pf.setup_optim_problem(prices, tg)
+        res = op.optimize()
+        if isinstance(res, str):
+            return None
+        o = eao.io.extract_output(pf, op, res)
+        dcf = {k: float(o['DCF'][nm(k)].sum()) for k in order}
+        return res.value, dcf
+    T2 = T - T % 2
+    T = T2 if T2 >= 2 else 2
+    ref = build(kinds, schemes[0], node_schemes[0])
+    if ref is None:
+        return out
+    F = lambda name, detail: out.append(fail(name, 'portfolio:Portfolio.setup_optim_problem', case, dict(case), detail + f' | kinds {kinds} waccs {waccs}'))
+    for trial in range(case.get('trials', 3)):
+        order = list(kinds)
+        rng.shuffle(order)
+        sc_ = rng.randrange(3)
+        got = build(order, schemes[sc_], node_schemes[sc_])
+        if got is None:
+            F('C09.same_value_under_renaming_and_permutation', f'order {order} naming scheme {sc_}: not solved')
+            continue
+        if abs(got[0] - ref[0]) > 1e-5 * max(1., abs(ref[0])):
+            F('C09.same_value_under_renaming_and_permutation', f'order {order} naming scheme {sc_}: value {got[0]} vs {ref[0]}')
+            break
     return out
